@@ -861,6 +861,56 @@ def corpus_cases():
     return [dangling, forward_top, coll_forward, coll_to_top_forward, nested_forward, nested_backward, chain, meta_only, text_levels]
 
 
+def grid_cases(full):
+    """references between every pair of places (top level, collection g, nested collection g.h) x both orders of
+    the two fields x write-level combinations (level of the referred field, of the referring field, of the write);
+    quick: the four combinations that differ in what must happen, thorough: all 27"""
+    import numpy as np
+    from midgard.data import dataset, position
+    places = [[], ["g"], ["g", "h"]]
+    names = ["detail", "analysis", "operational"]
+    if full:
+        combos = [(a, b, c) for a in names for b in names for c in names]
+    else:
+        combos = [("detail", "operational", "operational"),     # referred field omitted: private copy
+                  ("detail", "operational", "detail"),          # both written: reference by name
+                  ("analysis", "operational", "analysis"),      # referred field exactly at the level
+                  ("operational", "detail", "analysis")]        # referring field omitted
+    out = []
+    k = 0
+    for tp in places:
+        for rp in places:
+            for target_first in (True, False):
+                for (tl, rl, wl) in combos:
+                    k += 1
+
+                    def build(tp=tp, rp=rp, target_first=target_first, tl=tl, rl=rl, wl=wl, k=k):
+                        d = dataset.Dataset(2)
+                        tname, rname = ".".join(tp + ["tg"]), ".".join(rp + ["rf"])
+                        delta = k % 2 == 0
+                        tgt = position.Position(np.array([[3.0e6, 1.0e6 + k, 5.0e6], [3.1e6, 1.1e6, 5.1e6 - k]]), system="trs")
+
+                        def add_ref():
+                            if delta:
+                                d.add_position_delta(rname, val=np.array([[0.1, 0.2, 0.3], [0.4, 0.5, 0.25 * k]]), system="trs",
+                                                     ref_pos=tgt, write_level=rl)
+                            else:
+                                d.add_position(rname, val=np.array([[1.0, 2.0, 3.0 + k], [4.0, 5.0, 6.0]]), system="trs",
+                                               other=tgt, write_level=rl)
+                        if k % 3 == 0:
+                            d.add_float("g.h.ht", val=[10.5, 11.5], unit="meter")
+                        if target_first:
+                            d.add_position(tname, val=tgt, write_level=tl)
+                            add_ref()
+                        else:
+                            add_ref()
+                            d.add_position(tname, val=tgt, write_level=tl)
+                        tag = f"grid:{tname}({tl})<-{rname}({rl}):{'target' if target_first else 'referrer'}-first:write={wl}"
+                        return d, wl, tag
+                    out.append(build)
+    return out
+
+
 def outside_cases():
     """datasets the models exclude by `wf` (a leaf named like a reference attribute while some field keeps a private
     object under that attribute); the property is judged directly: what is read must be what was written"""
@@ -931,12 +981,15 @@ def run(ctx):
     casesB, metaB, hypB = [], [], []
     casesR, metaR = [], []
     corp = corpus_cases()
+    n_hand = len(corp)
+    corp = corp + grid_cases(not ctx.quick())
+    n_ds += len(corp) - n_hand
     idx = 0
     skipped = 0
     while len(casesB) < n_ds and idx < n_ds * 3:
         c = corp[idx] if idx < len(corp) else None
         try:
-            term, rep, info = run_dataset_case(ctx, idx, rng, corpus=c, reread=(idx % 3 == 0 or c is not None))
+            term, rep, info = run_dataset_case(ctx, idx, rng, corpus=c, reread=(idx % 3 == 0 or idx < n_hand))
         except Unrepresentable as ex:
             skipped += 1
             ctx.count("dataset:outside-model")
@@ -951,6 +1004,8 @@ def run(ctx):
             casesR.append(info.pop("reread_term"))
             metaR.append(dict(rep, kind="dataset-read-twice"))
             ctx.count("dataset:read-twice")
+        if rep["tag"].startswith("grid:"):
+            ctx.count("dataset:grid")
         ctx.count(f"dataset:level:{rep['write_level']}")
         ctx.count(f"dataset:nfields:{len(rep['fields'])}")
         ctx.count(f"dataset:nrefs:{len(rep['references'])}")
